@@ -191,8 +191,17 @@ def field_alias_classes(ctx, aa: AliasAnalysis) -> Dict[str, set]:
             continue
         m = q.rsplit('.', 1)[1]
         for fld, origs in s.field_stores.items():
+            flds = [fld] if fld != '*' else list(GROUPS)
+            for o in [o_ for o_ in origs if o_ == 'FIELD:*']:
+                for g_ in GROUPS:
+                    for fl_ in flds:
+                        union('FIELD:' + fl_, 'FIELD:' + g_)
             for o in origs:
-                if o == FRESH:
+                if o == FRESH or o == 'FIELD:*':
+                    continue
+                if fld == '*':
+                    for fl_ in flds:
+                        union('FIELD:' + fl_, o if o.startswith('FIELD:') else f"PARAM:{m}:{o[6:]}")
                     continue
                 if o.startswith('FIELD:'):
                     union('FIELD:' + fld, o)
